@@ -1015,18 +1015,14 @@ func f1StableClass(g1 *sfnt.Font, hasPost, fromKern bool) string {
 	if v, err := head.VersionFromString("Version " + g1.Version.String()); err != nil || v != g1.Version {
 		return "version-decimals"
 	}
-	if !hasPost {
+	if !hasPost { // the CFF underline metrics are rounded on read (0dc7ef1); the int16 range remains
 		up, ut := float64(g1.UnderlinePosition), float64(g1.UnderlineThickness)
-		if up != math.Round(up) || ut != math.Round(ut) || math.Abs(up) > 32767 || math.Abs(ut) > 32767 {
-			return "underline-fraction"
+		if math.Abs(up) > 32767 || math.Abs(ut) > 32767 {
+			return "underline-range"
 		}
 	}
-	switch o := g1.Outlines.(type) {
-	case *glyf.Outlines:
-		if o.Widths == nil && len(o.Glyphs) > 0 {
-			return "no-widths"
-		}
-	case *cff.Outlines:
+	// a TrueType font without hmtx has all-zero widths since feedc74
+	if o, ok := g1.Outlines.(*cff.Outlines); ok {
 		for _, g := range o.Glyphs {
 			if g.Width != math.Trunc(g.Width) || math.Abs(g.Width) > 32767 {
 				return "cff-width-fraction"
